@@ -17,6 +17,9 @@ use easy_ml::tensors::views::{IndexRange, TensorView};
 use easy_ml::tensors::Tensor;
 
 pub fn run(args: &[Sx]) -> Sx {
+    if args.len() == 7 && args[0].i64() == Some(4) {
+        return float_oracle(args);
+    }
     if args.len() != 6 {
         return bad_case();
     }
@@ -215,6 +218,192 @@ where
             opt(canonical.map(|c| {
                 l(vec![enc_shape(&c[0].0), enc_data(&c[0].1), enc_shape(&c[1].0), enc_data(&c[1].1)])
             }))
+        }
+        _ => bad_case(),
+    }
+}
+
+
+// ------------------------------------------------------------------ op 4: f64 oracle
+//   (8 4 which (n0 n1) rows cols (x ...) scale)   entries (num/den) * 2^scale
+// (1) present and every defining identity holds, () absent, (0 code) an identity fails.
+fn float_oracle(args: &[Sx]) -> Sx {
+    let (Some(which), Some(names), Some(rows), Some(cols), Some(raw), Some(scale)) = (
+        args[1].i64(),
+        args[2].usizes(),
+        args[3].usize(),
+        args[4].usize(),
+        args[5].list(),
+        args[6].i64(),
+    ) else {
+        return bad_case();
+    };
+    if names.len() != 2 || names[0] == names[1] || rows == 0 || cols == 0 || rows > 8 || cols > 8
+        || raw.len() != rows * cols || scale.abs() > 900
+    {
+        return bad_case();
+    }
+    let mut data = Vec::with_capacity(rows * cols);
+    for x in raw {
+        let Some(p) = x.list() else { return bad_case() };
+        if p.len() != 2 {
+            return bad_case();
+        }
+        let (Some(n), Some(d)) = (p[0].i64(), p[1].i64()) else { return bad_case() };
+        if d == 0 {
+            return bad_case();
+        }
+        data.push((n as f64 / d as f64) * 2f64.powi(scale as i32));
+    }
+    let (n0, n1) = (dim(names[0]), dim(names[1]));
+    let a = |i: usize, j: usize| data[i * cols + j];
+    let norm = data.iter().fold(0.0f64, |m, x| m.max(x.abs()));
+    let matrix = Matrix::from_flat_row_major((rows, cols), data.clone());
+    let tensor = Tensor::from([(n0, rows), (n1, cols)], data.clone());
+    let mut tdat = Vec::with_capacity(rows * cols);
+    for j in 0..cols {
+        for i in 0..rows {
+            tdat.push(a(i, j));
+        }
+    }
+    let transposed = Tensor::from([(n0, cols), (n1, rows)], tdat);
+    let bits = |t: &Tensor<f64, 2>| (t.shape(), t.iter().map(|x| x.to_bits()).collect::<Vec<u64>>());
+    let mbits = |m: &Matrix<f64>| (m.size(), m.row_major_iter().map(|x| x.to_bits()).collect::<Vec<u64>>());
+    let flat = |t: &Tensor<f64, 2>| t.iter().collect::<Vec<f64>>();
+    let bad = |code: i64| l(vec![z(0), z(code)]);
+    let yes = l(vec![z(1)]);
+    let tol = 1e-9 * norm;
+    match which {
+        1 => {
+            let r = linear_algebra::cholesky_decomposition_tensor::<f64, _, _>(&tensor);
+            let forms = [
+                linear_algebra::cholesky_decomposition_tensor::<f64, _, _>(tensor.clone()),
+                linear_algebra::cholesky_decomposition_tensor::<f64, _, _>(TensorView::from(&tensor)),
+                linear_algebra::cholesky_decomposition_tensor::<f64, _, _>(transposed.transpose_view([n1, n0])),
+            ];
+            for f in &forms {
+                if f.as_ref().map(bits) != r.as_ref().map(bits) {
+                    return inconsistent(881);
+                }
+            }
+            let m = linear_algebra::cholesky_decomposition::<f64>(&matrix);
+            if m.as_ref().map(|x| mbits(x).1) != r.as_ref().map(|x| bits(x).1) {
+                return inconsistent(882);
+            }
+            let Some(lt) = r else { return nil() };
+            if lt.shape() != tensor.shape() {
+                return bad(1);
+            }
+            let lf = flat(&lt);
+            let n = rows;
+            let le = |i: usize, j: usize| lf[i * n + j];
+            for i in 0..n {
+                if !(le(i, i) > 0.0) {
+                    return bad(2);
+                }
+                for j in i + 1..n {
+                    if le(i, j) != 0.0 {
+                        return bad(3);
+                    }
+                }
+                for j in 0..n {
+                    let s: f64 = (0..n).map(|k| le(i, k) * le(j, k)).sum();
+                    if !((s - a(i, j)).abs() <= tol) {
+                        return bad(4);
+                    }
+                }
+            }
+            yes
+        }
+        2 => {
+            let r = linear_algebra::ldlt_decomposition_tensor::<f64, _, _>(&tensor);
+            let key = |x: &Option<linear_algebra::LDLTDecompositionTensor<f64>>| {
+                x.as_ref().map(|d| (bits(&d.l), bits(&d.d)))
+            };
+            let forms = [
+                linear_algebra::ldlt_decomposition_tensor::<f64, _, _>(tensor.clone()),
+                linear_algebra::ldlt_decomposition_tensor::<f64, _, _>(TensorView::from(&tensor)),
+                linear_algebra::ldlt_decomposition_tensor::<f64, _, _>(transposed.transpose_view([n1, n0])),
+            ];
+            for f in &forms {
+                if key(f) != key(&r) {
+                    return inconsistent(883);
+                }
+            }
+            let m = linear_algebra::ldlt_decomposition::<f64>(&matrix);
+            if m.as_ref().map(|x| (mbits(&x.l).1, mbits(&x.d).1)) != r.as_ref().map(|x| (bits(&x.l).1, bits(&x.d).1)) {
+                return inconsistent(884);
+            }
+            let Some(dec) = r else { return nil() };
+            if dec.l.shape() != tensor.shape() || dec.d.shape() != tensor.shape() {
+                return bad(11);
+            }
+            let (lf, df) = (flat(&dec.l), flat(&dec.d));
+            let n = rows;
+            let le = |i: usize, j: usize| lf[i * n + j];
+            let de = |i: usize, j: usize| df[i * n + j];
+            for i in 0..n {
+                if le(i, i) != 1.0 || de(i, i) == 0.0 {
+                    return bad(12);
+                }
+                for j in 0..n {
+                    if (j > i && le(i, j) != 0.0) || (j != i && de(i, j) != 0.0) {
+                        return bad(13);
+                    }
+                    let s: f64 = (0..n).map(|k| le(i, k) * de(k, k) * le(j, k)).sum();
+                    if !((s - a(i, j)).abs() <= tol) {
+                        return bad(14);
+                    }
+                }
+            }
+            yes
+        }
+        3 => {
+            let r = linear_algebra::qr_decomposition_tensor::<f64, _, _>(&tensor);
+            let key = |x: &Option<linear_algebra::QRDecompositionTensor<f64>>| {
+                x.as_ref().map(|d| (bits(&d.q), bits(&d.r)))
+            };
+            let forms = [
+                linear_algebra::qr_decomposition_tensor::<f64, _, _>(tensor.clone()),
+                linear_algebra::qr_decomposition_tensor::<f64, _, _>(TensorView::from(&tensor)),
+                linear_algebra::qr_decomposition_tensor::<f64, _, _>(transposed.transpose_view([n1, n0])),
+            ];
+            for f in &forms {
+                if key(f) != key(&r) {
+                    return inconsistent(885);
+                }
+            }
+            let m = linear_algebra::qr_decomposition::<f64>(&matrix);
+            if m.as_ref().map(|x| (mbits(&x.q).1, mbits(&x.r).1)) != r.as_ref().map(|x| (bits(&x.q).1, bits(&x.r).1)) {
+                return inconsistent(886);
+            }
+            let Some(dec) = r else { return nil() };
+            if dec.q.shape() != [(n0, rows), (n1, rows)] || dec.r.shape() != [(n0, rows), (n1, cols)] {
+                return bad(21);
+            }
+            let (qf, rf) = (flat(&dec.q), flat(&dec.r));
+            let qe = |i: usize, j: usize| qf[i * rows + j];
+            let re = |i: usize, j: usize| rf[i * cols + j];
+            for i in 0..rows {
+                for j in 0..cols {
+                    // upper triangular: exactly zero or negligible against the input
+                    if j < i && !(re(i, j).abs() <= 1e-12 * norm) {
+                        return bad(22);
+                    }
+                    let s: f64 = (0..rows).map(|k| qe(i, k) * re(k, j)).sum();
+                    if !((s - a(i, j)).abs() <= tol) {
+                        return bad(23);
+                    }
+                }
+                for j in 0..rows {
+                    let s: f64 = (0..rows).map(|k| qe(k, i) * qe(k, j)).sum();
+                    let want = if i == j { 1.0 } else { 0.0 };
+                    if !((s - want).abs() <= 1e-9) {
+                        return bad(24);
+                    }
+                }
+            }
+            yes
         }
         _ => bad_case(),
     }
